@@ -1466,13 +1466,23 @@ func (p *scionPacketProcessor) updateNonConsDirIngressSegID() disposition {
 	return pForward
 }
 
+// scionPathOffset returns the offset, in the packet, of the SCION path meta header. In an EPIC
+// packet the SCION path follows the EPIC-specific fields.
+func (p *scionPacketProcessor) scionPathOffset() int {
+	offset := slayers.CmnHdrLen + p.scionLayer.AddrHdrLen()
+	if p.scionLayer.PathType == epic.PathType {
+		offset += epic.MetadataLen
+	}
+	return offset
+}
+
 func (p *scionPacketProcessor) currentInfoPointer() uint16 {
-	return uint16(slayers.CmnHdrLen + p.scionLayer.AddrHdrLen() +
+	return uint16(p.scionPathOffset() +
 		scion.MetaLen + path.InfoLen*int(p.path.PathMeta.CurrINF))
 }
 
 func (p *scionPacketProcessor) currentHopPointer() uint16 {
-	return uint16(slayers.CmnHdrLen + p.scionLayer.AddrHdrLen() +
+	return uint16(p.scionPathOffset() +
 		scion.MetaLen + path.InfoLen*p.path.NumINF + path.HopLen*int(p.path.PathMeta.CurrHF))
 }
 
